@@ -1689,7 +1689,6 @@ def read_index(file, name, index, tindex, stop=b'\377' * 8,
 
         if tid <= ltid:
             logger.warning("%s time-stamp reduction at %s", name, pos)
-        ltid = tid
 
         if pos + (tl + 8) > file_size or status == 'c':
             # Hm, the data were truncated or the checkpoint flag wasn't
@@ -1732,6 +1731,10 @@ def read_index(file, name, index, tindex, stop=b'\377' * 8,
 
         if tid >= stop:
             break
+
+        # Only now is this a transaction of the database (it is complete
+        # and before `stop`): it is the last one seen so far.
+        ltid = tid
 
         tpos = pos
         tend = tpos + tl
